@@ -159,6 +159,56 @@ func verifH_C01_array() { verifC01Array(2) }
 //verif:harness id=C01 tier=thorough witness=end bounds="A: as quick with arrays of 0..3 items"
 func verifH_C01_array3() { verifC01Array(3) }
 
+// verifC01UniquePool: uniqueItems over arrays of mixed-type items drawn from a
+// pool of concrete JSON values whose Go printed forms / JSON texts are easy to
+// confuse (1 vs "1", true vs "true", [1,2] vs "[1 2]", {"a":1} vs "map[a:1]").
+// Selector-symbolic: the explorer forks over the pool, the solver decides only uniqueItems.
+func verifC01UniquePool(maxLen int) {
+	pool := func(k int) any {
+		switch k {
+		case 0:
+			return 1.0
+		case 1:
+			return "1"
+		case 2:
+			return true
+		case 3:
+			return "true"
+		case 4:
+			return []any{1.0, 2.0}
+		case 5:
+			return "[1 2]"
+		case 6:
+			return map[string]any{"a": 1.0}
+		case 7:
+			return "map[a:1]"
+		case 8:
+			return []any{"1", 2.0}
+		case 9:
+			return map[string]any{"a": "1"}
+		case 10:
+			return "[1,2]"
+		}
+		return "{\"a\":1}"
+	}
+	s := &Schema{Type: &Types{"array"}}
+	s.UniqueItems = verifNondetBool("unique")
+	n := verifChoose("len", maxLen+1)
+	arr := make([]any, 0, n)
+	for i := 0; i < n; i++ {
+		arr = append(arr, pool(verifChoose("item", 12)))
+	}
+	err := verifVisit(s, arr, 0)
+	verifAssert((err == nil) == verifRef(s, arr), "C01 uniqueItems over mixed-type items: accept iff reference accepts")
+	verifReach("end")
+}
+
+//verif:harness id=C01 tier=quick witness=end bounds="U: uniqueItems (symbolic) x arrays of 0..2 items drawn from 12 concrete JSON values of mixed types with colliding printed forms (1,'1',true,'true',[1,2],'[1 2]','[1,2]',{a:1},'map[a:1]','{\"a\":1}',['1',2],{a:'1'})"
+func verifH_C01_unique_pool() { verifC01UniquePool(2) }
+
+//verif:harness id=C01 tier=thorough witness=end bounds="U: as quick with arrays of 0..3 items"
+func verifH_C01_unique_pool3() { verifC01UniquePool(3) }
+
 func verifObjectValue(p string, keys []string, strMax int) map[string]any {
 	out := map[string]any{}
 	for _, k := range keys {
